@@ -45,7 +45,8 @@ impl ValidatedShred {
     /// # Errors
     ///
     /// - [`ShredValidationError::InvalidSignature`] if the signature verification fails
-    ///   against the shred's commitment.
+    ///   against the shred's commitment, or if the shred's index is not fully consumed by
+    ///   its Merkle path (the signed root then does not authenticate that position).
     /// - [`ShredValidationError::Equivocation`] if the signature is valid but
     ///   the shred's commitment does not match the cached commitment.
     #[hotpath::measure]
@@ -54,6 +55,15 @@ impl ValidatedShred {
         cached_commitment: Option<&SliceCommitment>,
         pk: &PublicKey,
     ) -> Result<Self, ShredValidationError> {
+        // the index must be fully consumed by the Merkle path, otherwise the shred at `index`
+        // of a tree of height `len` would also be accepted as `index + k * 2^len`;
+        // checked before the cache shortcut, which only compares the derived root
+        let path_len = u32::try_from(shred.merkle_path.as_ref().len()).unwrap_or(u32::MAX);
+        let index = *shred.payload().shred_index;
+        if index.checked_shr(path_len).unwrap_or(0) != 0 {
+            return Err(ShredValidationError::InvalidSignature);
+        }
+
         let slice_root = shred.slice_root();
         let msg = SliceCommitment::new(&shred.payload().header, &slice_root);
 
@@ -179,6 +189,50 @@ mod tests {
         // checking different shred with valid signature should detect equivocation
         let res = ValidatedShred::try_new(other_shred, Some(&cached), &other_sk.to_pk());
         assert!(matches!(res, Err(ShredValidationError::Equivocation)));
+    }
+
+    #[test]
+    fn index_beyond_tree_width_rejected() {
+        use crate::crypto::merkle::SliceMerkleTree;
+        use crate::shredder::ShredIndex;
+
+        // a (Byzantine) leader signs a slice root over a two-leaf tree
+        let (template, sk) = create_random_shred();
+        let pk = sk.to_pk();
+        let leaves = vec![vec![1u8; 8], vec![2u8; 8]];
+        let tree = SliceMerkleTree::new(&leaves);
+        let root = tree.get_root();
+        let header = template.payload().header;
+        let commitment = SliceCommitment::new(&header, &root);
+        let sig = sk.sign_bytes(commitment.as_ref());
+        let shred_at = |leaf: usize, index: usize| {
+            let mut shred = template.clone();
+            shred.payload_mut().shred_index = ShredIndex::new(index).unwrap();
+            shred.payload_mut().data = leaves[leaf].clone();
+            shred.slice_sig = sig;
+            shred.merkle_path = tree.create_proof(leaf);
+            shred
+        };
+
+        // the genuine shreds are accepted, with and without cached commitment
+        for leaf in 0..2 {
+            for cache in [None, Some(&commitment)] {
+                let res = ValidatedShred::try_new(shred_at(leaf, leaf), cache, &pk);
+                assert!(res.is_ok(), "genuine shred {leaf} rejected: {res:?}");
+            }
+        }
+        // the same payload and path relabelled as `index + k * 2` derives the same root,
+        // but is not a shred of this slice: rejected, and never as equivocation of the leader
+        for (leaf, index) in [(0, 2), (1, 3), (0, 62), (1, 63)] {
+            for cache in [None, Some(&commitment)] {
+                let res = ValidatedShred::try_new(shred_at(leaf, index), cache, &pk);
+                assert!(
+                    matches!(res, Err(ShredValidationError::InvalidSignature)),
+                    "leaf {leaf} accepted as index {index} (cached={}): {res:?}",
+                    cache.is_some(),
+                );
+            }
+        }
     }
 
     #[test]
